@@ -81,9 +81,19 @@ async fn spawn_replier(addr: SocketAddr, certs: &Certs, topic: &str, comp: Optio
     }
     let (mut write, mut read) = stream.split();
     let (tx, mut rx) = mpsc::unbounded_channel::<Frame>();
+    // everything the script has released by now goes out in one flush (a replier that answers in bursts: several
+    // replies, duplicates and strays included, reach the requestor's reader in one read)
     let writer = tokio::spawn(async move {
-        while let Some(f) = rx.recv().await {
-            if write.send(f).await.is_err() {
+        'outer: while let Some(f) = rx.recv().await {
+            if write.feed(f).await.is_err() {
+                break;
+            }
+            while let Ok(f2) = rx.try_recv() {
+                if write.feed(f2).await.is_err() {
+                    break 'outer;
+                }
+            }
+            if write.flush().await.is_err() {
                 break;
             }
         }
